@@ -42,6 +42,15 @@ CHECKS = {
         design_ref="3 C20",
         technique="symbolic execution of the real Python functions with CrossHair (z3); real argparse/unittest.mock; recorders for runpy",
     ),
+    "C08": dict(
+        category="other",
+        text="Bounded symbolic execution (CrossHair/z3): a symbolic parameter string over all of unicode (length-bounded) goes through the "
+        "connector's real escape/quote, the real sqlglot Snowflake string lexer and the real DuckDB literal generator and must come back "
+        "unchanged as exactly one literal; the real _rewrite_with_params / execute / executemany are driven with symbolic placeholder "
+        "layouts, values and paramstyles against a recording engine.",
+        design_ref="3 C08",
+        technique="symbolic execution of the real Python functions with CrossHair (z3) at unit level (lexer/generator routines) and API level; replay on the real stack",
+    ),
 }
 
 NOT_YET = "not claimed yet: check not built in this round (see DESIGN.md 7 for the order of work)"
